@@ -199,7 +199,20 @@ def scan(model_or_base, mp_rel: str, entry: str, real: bool = False):
             ev = get_evaluable_architecture_for_module_objects(rm, mm)
     except Exception as e:  # noqa: BLE001
         return ("ERROR", type(e).__name__, str(e)[:120])
-    return ("SCAN",) + graph_view(ev)
+    view = graph_view(ev)
+    # the public `modules` view: equal to the graph's nodes, and a value of its own - whatever a caller does to the
+    # list it was handed, the architecture keeps reporting its modules
+    try:
+        first = list(ev.modules)
+        handed = ev.modules
+        if isinstance(handed, list):
+            handed.clear()
+        second = list(ev.modules)
+    except Exception as e:  # noqa: BLE001
+        return ("ERROR", "modules property", f"{type(e).__name__}: {e}"[:120])
+    if sorted(first) != sorted(view[0]) or first != second:
+        return ("ERROR", "modules property", f"graph nodes {sorted(view[0])}, modules {first}, modules after the caller emptied the returned list {second}"[:300])
+    return ("SCAN",) + view
 
 
 def judge(model: FSModel, view, mp_rel: str, got, full=None):
